@@ -16,6 +16,7 @@ import hashlib
 import json
 import multiprocessing as mp
 import os
+import re
 import subprocess
 import sys
 import time
@@ -236,8 +237,9 @@ def main():
                     crashes.append('bounded clause %s made zero evaluations' % cl['clause'])
                 for vio in cl.get('violations', []):
                     kf = [f for f in known['findings'] if f.get('status') == 'known' and f.get('property') == pid
-                          and f.get('layer') == 'bounded' and f.get('clause') == cl['clause']
-                          and vio.get('key') in f.get('keys', [])]
+                          and f.get('layer') == 'bounded' and f.get('clause') in (cl['clause'], '*')
+                          and (vio.get('key') in f.get('keys', []) or
+                               (f.get('what_regex') and re.search(f['what_regex'], str(vio.get('what', '')))))]
                     if kf:
                         line = 'KNOWN-FINDING: property=%s %s' % (pid, kf[0]['what'])
                         if line not in known_lines:
